@@ -243,6 +243,34 @@ def damaged_lines(case):
         new[k] = other + new[k][1:]
         return new, len(new) - 1, new[-1]
 
+    if d['kind'] == 'inflate':
+        # the first hunk claims far more lines than the whole input holds;
+        # what interrupts it is the next hunk's header (named in the
+        # error), not the end of the input
+        if len(extents) < 2 or any(e['after'] for e in case['diff']['hunks']):
+            return None
+
+        first = extents[0]
+        nxt = extents[1][0]
+        header = lines[first[0]]
+        m = hunks.HEADER_RE.match(header)
+
+        if m is None or nxt != first[0] + first[2]:
+            return None
+
+        oc = int(m.group(3) or 1) * 10 + 30
+        mc = int(m.group(6) or 1) * 10 + 30
+        new = list(lines)
+        new[first[0]] = (b'@@ -%s,%d +%s,%d @@' % (m.group(1), oc,
+                                                   m.group(4), mc) +
+                         (m.group(7) or b''))
+
+        if any(l[:1] not in (b' ', b'+', b'-') and l != hunks.MARKER
+               for l in new[first[0] + 1:nxt]):
+            return None
+
+        return new, nxt, new[nxt]
+
     if d['kind'] == 'truncate':
         # cut so that the hunk is incomplete: keep lines[:k]
         cut = lines[:k]
@@ -365,7 +393,7 @@ def damaged(draw):
         'tolerant': draw(hs.booleans()),
         'damage': {
             'kind': draw(hs.sampled_from(['truncate', 'replace', 'replace',
-                                          'header', 'flip'])),
+                                          'header', 'flip', 'inflate'])),
             'hunk': draw(hs.integers(0, 5)),
             'pos': draw(hs.integers(0, 20)),
             'line': draw(hs.sampled_from(
